@@ -202,4 +202,17 @@ def renderTemplate (r : List RTok) : List Char :=
 
 def joinWords (ws : List (List Char)) : List Char := (" ".toList).intercalate ws
 
+/-- The *source text* of the regular expression `compile_row_regexp` builds for a
+grammar row (`re.Pattern.pattern`), syntax.py:13-38.  Needed because the ACL
+specificity metric and the ordering weight look at the characters of the
+pattern string (patching.py:179, 540). -/
+def patternSource (p : Pat) : List Char :=
+  let ws := p.toks.map fun
+    | .lit w => w
+    | .star => "([^\\s]+)".toList
+    | .tilde => "(.+)".toList
+  let body := ("\\s+".toList).intercalate ws
+  let tail := if p.ellipsis || p.toks.getLast? == some .tilde then [] else "(?:\\s|$)".toList
+  '^' :: (body ++ tail)
+
 end Annet.Pattern
